@@ -95,3 +95,17 @@ class Perturb:
                 mon.free_tool_id(self.TOOL)
             except Exception:
                 pass
+
+
+def free_http_layer(rng, on_error="fail"):
+    """a real HttpCommunicationLayer on a free 127.0.0.1 port (ports drawn per process; a busy port is skipped)"""
+    import os
+    from pydcop.infrastructure.communication import HttpCommunicationLayer
+
+    for attempt in range(40):
+        port = 20000 + ((os.getpid() * 7 + rng.randrange(0, 20000)) % 30000)
+        try:
+            return HttpCommunicationLayer(("127.0.0.1", port), on_error=on_error)
+        except OSError:
+            continue
+    return None
